@@ -344,6 +344,50 @@ def heap_history(rng, flavour, neg):
     return {"flavour": flavour, "neg": neg, "ops": ops}
 
 
+def tie_history(rng, flavour, neg):
+    """Clusters of calls created for the SAME time and never rescheduled, interleaved with reset / delay / cancel
+    of *other* calls (decoys scheduled around that time, moved sooner or later so that whatever internal order the
+    provider keeps is disturbed), then one clock step that runs the cluster: creation order among the cluster is
+    what C09 pins (and C08 leaves free)."""
+    reactor = flavour == "reactor"
+    ops = []
+    n = 0
+    for _ in range(rng.randint(1, 3)):
+        T = rng.randint(2, 6)
+        decoys = []
+        for _ in range(rng.randint(2, 7)):
+            ops.append(["later", rng.randint(0, 12), []])
+            n += 1
+            decoys.append(n)
+
+        def disturb():
+            k = rng.choice(decoys)
+            r = rng.random()
+            if r < 0.5:
+                return ["reset", k, rng.choice([0, 1, 1, 2, 3, T, T + 1, 8])]
+            if r < 0.75:
+                return ["delay", k, rng.choice([-4, -2, -1]) if neg and rng.random() < 0.6 else rng.choice([1, 2, 5])]
+            return ["cancel", k]
+
+        for _ in range(rng.randint(1, 5)):
+            ops.append(disturb())
+        for _ in range(rng.randint(2, 5)):
+            ops.append(["later", T, [disturb()] if rng.random() < 0.15 else []])
+            n += 1
+            for _ in range(rng.choice([0, 1, 1, 2, 3])):
+                ops.append(disturb())
+        if rng.random() < 0.3:
+            ops.append(["gdc"])
+        ops.append(["adv", rng.choice([T, T, T + 1, 15])])
+        if reactor:
+            ops.append(["iter"])
+    ops.append(["adv", 20])
+    if reactor:
+        ops.append(["iter"])
+    ops.append(["gdc"])
+    return {"flavour": flavour, "neg": neg, "ops": ops}
+
+
 def exhaustive_histories(flavour, depth, maxcalls, neg, scripts=True):
     """Every top-level history of exactly `depth` steps over a small alphabet (at most `maxcalls` calls;
     delays 0/1; a reactor step is adv(1)+runUntilCurrent or a bare runUntilCurrent, a Clock step is
@@ -556,6 +600,10 @@ def run_flavour(ctx, flavour, what):
     for i in range(nheap):
         traces.append(run_history(heap_history(ctx.rng, flavour, ctx.rng.random() < 0.5)))
     ctx.extra["queue_reordering_histories"] = nheap
+    ntie = ctx.pick(200, 5000)
+    for i in range(ntie):
+        traces.append(run_history(tie_history(ctx.rng, flavour, ctx.rng.random() < 0.3)))
+    ctx.extra["same_time_cluster_histories"] = ntie
     behs = ctx.simulate("TimersSim", "TimersSim.%s.cfg" % flavour, num=ctx.pick(40, 600), depth=25)
     drift = 0
     for b in behs:
